@@ -111,6 +111,7 @@ PROPS["C20"]["engines"].append({"engine": "sched", "shim": True})
 PROPS["C02"]["engines"].append({"engine": "sched", "shim": True})
 PROPS["C07"]["engines"].append({"engine": "sched", "shim": True})
 PROPS["C06"]["engines"].append({"engine": "sched", "shim": True})
+PROPS["C06"]["engines"].append({"engine": "input", "shim": False})
 PROPS["C08"]["engines"].append({"engine": "sched", "shim": True})
 PROPS["C14"]["engines"].append({"engine": "sched", "shim": True})
 
